@@ -8,6 +8,7 @@ constraints of the programme).
 -/
 import NumqiProofs.BoundaryLemmas
 import NumqiProofs.BoundaryDicke
+import NumqiProofs.BoundaryNesting
 
 namespace Numqi.C06
 open Numqi Numqi.Boundary Matrix
@@ -244,9 +245,138 @@ theorem pureb_has_extension (n j : ℕ) (hj : j ≤ n) (hd : 2 ≤ dB) (ψ : ℕ
 
 end extension
 
+/-! ## 5. separable ⊆ extendible; the chains with their side conditions discharged -/
+
+section chain
+variable {dA dB : ℕ}
+
+/-- mixtures of product projectors with non-negative weights and **unit `B`-kets** — what `CHABoundaryBagging` returns (its kets
+are normalised, checked on every run) -/
+def SEPU (dA dB : ℕ) : Set (Matrix (Fin dA × Fin dB) (Fin dA × Fin dB) ℂ) :=
+  {M | ∃ (K : ℕ) (lam : Fin K → ℂ) (a : Fin K → Fin dA → ℂ) (b : Fin K → Fin dB → ℂ),
+        (∀ i, 0 ≤ lam i) ∧ (∀ i, ∑ x, b i x * star (b i x) = 1) ∧ M = Matrix.of (mixture lam a b)}
+
+theorem sepu_subset_sep : SEPU dA dB ⊆ SEP dA dB :=
+  fun _ ⟨K, lam, a, b, h1, _, h3⟩ => ⟨K, lam, a, b, h1, h3⟩
+
+/-- **`sep_subset_kext`**: a convex mixture of product projectors (unit kets) has a symmetric extension
+`Σ_i λ_i |a_i⟩⟨a_i| ⊗ (|b_i⟩⟨b_i|)^{⊗(k+1)}` to any number of copies — so `β_CHA ≤ β_k-ext` for the exact sets, every `k`. -/
+theorem sepu_subset_kext (k : ℕ) : SEPU dA dB ⊆ KEXT dA dB k := by
+  rintro M ⟨K, lam, a, b, hlam, hb, rfl⟩
+  exact ⟨sepExt k lam a b, isSymExt_sepExt k lam hlam a b hb⟩
+
+/-- the maximally mixed state lies in every set of the hierarchy (it is the mixture of the `N` basis product projectors) -/
+theorem center_mem_sepu (dA dB : ℕ) :
+    (((1 / ((dA * dB : ℕ) : ℝ) : ℝ) : ℂ) • (1 : Matrix (Fin dA × Fin dB) (Fin dA × Fin dB) ℂ)) ∈ SEPU dA dB := by
+  refine ⟨dA * dB, _, _, _, ?_, ?_, center_eq_mixture dA dB⟩
+  · intro i
+    have : (0 : ℝ) ≤ 1 / ((dA * dB : ℕ) : ℝ) := by positivity
+    exact_mod_cast this
+  · intro i
+    rw [Fintype.sum_eq_single (finProdFinEquiv.symm i).2]
+    · simp
+    · intro x hx; rw [Pi.single_apply, if_neg hx]; simp
+
+/-- **the whole chain for the exact sets, side conditions discharged**: from the maximally mixed state `c = 1/N` in any direction
+`v` that has a negative Rayleigh value (every non-zero traceless Hermitian direction has one),
+`β_SEP ≤ β_(k+1)ext ≤ β_kext ≤ β_DM` and `β_SEP ≤ β_PPT ≤ β_DM` (boundary length = supremum of the feasible `β ≥ 0`).
+Not covered (named gaps): the bosonic variant of `KEXT`, and `k-ext+PPT ⊆ PPT` for the SDP's constraint (PT of the *extension*). -/
+theorem beta_chain (k : ℕ) (v : Matrix (Fin dA × Fin dB) (Fin dA × Fin dB) ℂ) (x : Fin dA × Fin dB → ℂ) (s r : ℝ)
+    (hs : star x ⬝ᵥ x = (s : ℂ)) (hr : star x ⬝ᵥ (v *ᵥ x) = (r : ℂ)) (hneg : r < 0) :
+    let c : Matrix (Fin dA × Fin dB) (Fin dA × Fin dB) ℂ := ((1 / ((dA * dB : ℕ) : ℝ) : ℝ) : ℂ) • 1
+    sSup (feasible (SEPU dA dB) c v) ≤ sSup (feasible (KEXT dA dB (k + 1)) c v)
+      ∧ sSup (feasible (KEXT dA dB (k + 1)) c v) ≤ sSup (feasible (KEXT dA dB k) c v)
+      ∧ sSup (feasible (KEXT dA dB k) c v) ≤ sSup (feasible (DM dA dB) c v)
+      ∧ sSup (feasible (SEPU dA dB) c v) ≤ sSup (feasible (PPT dA dB) c v)
+      ∧ sSup (feasible (PPT dA dB) c v) ≤ sSup (feasible (DM dA dB) c v) := by
+  intro c
+  have hbd : BddAbove (feasible (DM dA dB) c v) := bddAbove_feasible_psd _ v x s r hs hr hneg
+  have hne : (feasible (SEPU dA dB) c v).Nonempty :=
+    ⟨0, le_rfl, by rw [zero_smul, add_zero]; exact center_mem_sepu dA dB⟩
+  have hsk : ∀ j, SEPU dA dB ⊆ KEXT dA dB j := sepu_subset_kext
+  have hsp : SEPU dA dB ⊆ PPT dA dB := fun M h => sep_subset_ppt (sepu_subset_sep h)
+  refine ⟨?_, ?_, ?_, ?_, ?_⟩
+  · exact beta_mono (hsk (k + 1)) c v hne (hbd.mono (feasible_mono (kext_subset_dm (k + 1)) c v))
+  · exact beta_mono (kext_succ_subset k) c v (hne.mono (feasible_mono (hsk (k + 1)) c v))
+      (hbd.mono (feasible_mono (kext_subset_dm k) c v))
+  · exact beta_mono (kext_subset_dm k) c v (hne.mono (feasible_mono (hsk k) c v)) hbd
+  · exact beta_mono hsp c v hne (hbd.mono (feasible_mono ppt_subset_dm c v))
+  · exact beta_mono ppt_subset_dm c v (hne.mono (feasible_mono hsp c v)) hbd
+
+end chain
+
+/-! ## 6. the spec-level objects are the executed constants -/
+
+/-- the ray point of the threshold theorems **is** `hf_interpolate_dm(ρ, beta=β, dm_norm=d)` as executed (`interpBeta`) -/
+theorem rayPoint_eq_interpBeta {n : ℕ} (N d : ℝ) (ρ : Matrix (Fin n) (Fin n) ℂ) (β : ℝ) :
+    rayPoint N d ρ β = Matrix.of (interpBeta (((1 / N : ℝ) : ℂ)) (β : ℂ) (d : ℂ) ρ) :=
+  Boundary.rayPoint_eq_interpBeta N d ρ β
+
+/-- the executed flat lists are numpy's row-major reshapes: position `flat(p)·N + flat(q)` of `toFlat M` holds `M p q`
+(`flat(a,b) = a·dB + b`, `pairAt` its inverse) -/
+theorem toFlat_getD {dA dB : ℕ} {α : Type} [Zero α] (M : Fin dA × Fin dB → Fin dA × Fin dB → α) (p q : Fin dA × Fin dB) :
+    (toFlat dA dB M).getD (flatOfPair p * (dA * dB) + flatOfPair q) 0 = M p q ∧ pairAt dA dB ⟨flatOfPair p, flatOfPair_lt p⟩ = p :=
+  ⟨Boundary.toFlat_getD M p q, pairAt_flatOfPair p⟩
+
+/-- **the executed partial transpose (driver op `pt`) is `reshape(dA,dB,dA,dB).transpose(0,3,2,1).reshape(N,N)`** on flat lists:
+output entry `[(a,b),(a',b')]` = input entry `[(a,b'),(a',b)]` -/
+theorem toFlat_ptB_ofFlat {dA dB : ℕ} {α : Type} [Zero α] (l : List α) (p q : Fin dA × Fin dB) :
+    (toFlat dA dB (ptB (ofFlat dA dB l))).getD (flatOfPair p * (dA * dB) + flatOfPair q) 0
+      = l.getD (flatOfPair (p.1, q.2) * (dA * dB) + flatOfPair (q.1, p.2)) 0 :=
+  Boundary.toFlat_ptB_ofFlat l p q
+
 /-! ## non-vacuity -/
 
-/-- the hypotheses of `dm_boundary_threshold` are satisfiable: `ρ = diag(3/4, 1/4)` (`N = 2`), thresholds `∓…` -/
+section nonvac
+open Complex
+
+/-- `ρ = diag(3/4, 1/4)` (one qubit, `N = 2`, Gell-Mann norm `d = 1/4`) -/
+noncomputable def ρ0 : Matrix (Fin 2) (Fin 2) ℂ := Matrix.diagonal ![3 / 4, 1 / 4]
+
+/-- **all hypotheses of `dm_boundary_threshold` hold at `ρ = diag(3/4,1/4)`** (`μmin = 1/4` attained at `e₁`, `μmax = 3/4` at `e₀`):
+the state on its ray is positive exactly for `-1/2 ≤ β ≤ 1/2` -/
+example (β : ℝ) : (rayPoint 2 (1 / 4) ρ0 β).PosSemidef ↔ -(1 / 2) ≤ β ∧ β ≤ 1 / 2 := by
+  have h := dm_boundary_threshold (n := Fin 2) 2 (1 / 4) (by norm_num) (by norm_num) ρ0 (1 / 4) (3 / 4) (by norm_num) (by norm_num)
+    (by
+      have e : ρ0 - ((1 / 4 : ℝ) : ℂ) • (1 : Matrix (Fin 2) (Fin 2) ℂ) = Matrix.diagonal ![((1 / 2 : ℝ) : ℂ), ((0 : ℝ) : ℂ)] := by
+        ext i j; fin_cases i <;> fin_cases j <;> simp [ρ0, Matrix.one_apply] <;> norm_num
+      rw [e]
+      exact PosSemidef.diagonal (by intro i; fin_cases i <;> simp))
+    (by
+      have e : ((3 / 4 : ℝ) : ℂ) • (1 : Matrix (Fin 2) (Fin 2) ℂ) - ρ0 = Matrix.diagonal ![((0 : ℝ) : ℂ), ((1 / 2 : ℝ) : ℂ)] := by
+        ext i j; fin_cases i <;> fin_cases j <;> simp [ρ0, Matrix.one_apply] <;> norm_num
+      rw [e]
+      exact PosSemidef.diagonal (by intro i; fin_cases i <;> simp))
+    ![0, 1] ![1, 0]
+    (by simp [dotProduct, Fin.sum_univ_two])
+    (by simp [dotProduct, Fin.sum_univ_two, mulVec, ρ0, Matrix.diagonal_apply])
+    (by simp [dotProduct, Fin.sum_univ_two])
+    (by simp [dotProduct, Fin.sum_univ_two, mulVec, ρ0, Matrix.diagonal_apply])
+    β
+  rw [h]
+  norm_num [dmBoundary]
+
+/-- `interpolate_distance` at `ρ = diag(3/4,1/4)`: `gmNorm2 ρ = (1/4)²`, so `hf_interpolate_dm(ρ, beta=1/8)` is at squared distance `1/64` -/
+example : gmNorm2 ((1 / 2 : ℂ)) (1 / 2) (interpBeta (1 / 2 : ℂ) (1 / 8) (1 / 4) (fun i j => ρ0 i j)) = (1 / 8) * (1 / 8) := by
+  refine interpolate_distance (n := 2) (1 / 2 : ℂ) (1 / 2) (1 / 8) (1 / 4) (by norm_num) (by simp) (by simp) (by norm_num) _ ?_
+  simp [gmNorm2, sumFin_eq, Fin.sum_univ_two, ρ0, Matrix.diagonal_apply, conj_eq_star, map_ofNat]
+  norm_num
+
+/-- `cha_lp_point_eq_mixture` with one product state `|00⟩` (`λ = 1`, `β = 1`, `v̂ = P - 1/N`) -/
+example (p q : Fin 2 × Fin 2) :
+    (if p = q then (1 / 4 : ℂ) else 0) + 1 * chaRow (1 / 4 : ℂ) (Pi.single (0 : Fin 2) 1) (Pi.single (0 : Fin 2) 1) p q
+      = mixture (K := 1) (fun _ => (1 : ℂ)) (fun _ => Pi.single (0 : Fin 2) 1) (fun _ => Pi.single (0 : Fin 2) 1) p q :=
+  cha_lp_point_eq_mixture (K := 1) (1 / 4 : ℂ) 1 _ (fun _ => 1) _ _ (by simp) (by intro p q; simp) p q
+
+/-- `IsSymExt` is inhabited: the maximally mixed two-qubit state has a symmetric extension to 3 copies, is PPT and positive -/
+example : (((1 / ((2 * 2 : ℕ) : ℝ) : ℝ) : ℂ) • (1 : Matrix (Fin 2 × Fin 2) (Fin 2 × Fin 2) ℂ)) ∈ KEXT 2 2 2 ∩ PPT 2 2 :=
+  ⟨sepu_subset_kext 2 (center_mem_sepu 2 2), sep_subset_ppt (sepu_subset_sep (center_mem_sepu 2 2))⟩
+
+end nonvac
+
+/-! ## non-vacuity (closed forms) -/
+
+/-- the closed forms on rational data: `ρ = diag(3/4, 1/4)`, `N = 2`, `d = 1` -/
 example : (dmBoundary (2 : ℚ) (1/4) (3/4) 1).1 = -2 ∧ (dmBoundary (2 : ℚ) (1/4) (3/4) 1).2 = 2 := by
   constructor <;> norm_num [dmBoundary]
 
